@@ -28,6 +28,7 @@ import (
 	"net"
 	neturl "net/url"
 	"os"
+	"strings"
 	"sync"
 	"sync/atomic"
 	"syscall"
@@ -705,6 +706,10 @@ func loginAttempt(o *vrt.Obs, p params, td *teardown) {
 		if p.Leg == "idle" && isTimeout(derr) {
 			// the short timeout of this leg expired during login (machine load): nothing to judge
 			o.Inconclusive = append(o.Inconclusive, fmt.Sprintf("idle leg: login did not finish within %v (%v)", dialTimeout, derr))
+			return
+		}
+		if stC, _, _ := px.Stats(); strings.HasPrefix(stC.Err, "dial target:") {
+			o.Inconclusive = append(o.Inconclusive, "proxy could not reach the server: "+stC.Err)
 			return
 		}
 		if errors.Is(derr, syscall.EADDRNOTAVAIL) || errors.Is(derr, syscall.EADDRINUSE) || errors.Is(derr, syscall.EMFILE) {
